@@ -99,7 +99,7 @@ def run(chk):
     tlines, tmeta = [], []
     for s in cases:
         a = Fraction(rng.choice([1, 2, 4, -1, -2]), rng.choice([1, 2, 4]))
-        b = Fraction(rng.randint(-8, 8))
+        b = Fraction(rng.choice([rng.randint(-8, 8), rng.randint(-8, 8), 2 ** 31, -2 ** 35, 2 ** 40 + 3]))   # all exact in binary64
         t = [a * v + b for v in s]
         tlines.append("rf.count 0 " + " ".join(rat(v) for v in t))
         tmeta.append((s, a, b, t))
